@@ -598,6 +598,10 @@ fn body_pool(plan: &J) {
         if late {
             // a submit that begins now must be refused (checked in the user code path below too)
         }
+        // stop() schedules too: for the "certainly still queued" bookkeeping of the cancel operations it
+        // is one more pass
+        _ = PASS_EPOCH.fetch_add(1, SeqCst);
+        IN_PASS.store(true, SeqCst);
         crate::child::mon_enter("stop-slow|pool.stop(30 s)");
         let r = pool.stop(Duration::from_secs(30));
         crate::child::mon_exit();
@@ -1334,13 +1338,8 @@ fn body_rt(plan: &J) {
     check_waits(false);
     let r = recs().clone();
     note("tasks", r.len());
-    // The handles that are left refer to event loops that EventLoops::stop() has already freed (a
-    // JoinHandle holds a plain reference to its loop): dropping one now would run clean_task_result on
-    // freed memory. None of the 28 properties is about handles that outlive the runtime, so they are
-    // leaked instead of dropped.
-    for h in HANDLES.lock().unwrap_or_else(|e| e.into_inner()).drain(..) {
-        std::mem::forget(h);
-    }
+    // handles are dropped here, after the stop (their loops stay registered)
+    HANDLES.lock().unwrap_or_else(|e| e.into_inner()).clear();
 }
 
 fn mon_enter_submit(ti: usize) {
